@@ -832,6 +832,12 @@ class ZeroSigH0SingleDatasetTCLLHRatio(
         """
         tracing = self._cfg['debugging']['enable_tracing']
 
+        # The cached first derivatives w.r.t. ns belong to the previous
+        # evaluation. They get set again at the end of this evaluation. If this
+        # evaluation fails, the calculate_ns_grad2 method must not use the
+        # values of an earlier evaluation.
+        self._cache_nsgrad_i = None
+
         if src_params_recarray is None:
             src_params_recarray = self._pmm.create_src_params_recarray(
                 gflp_values=fitparam_values
